@@ -1620,6 +1620,44 @@ def c05_neg_like(env, ob):
 
 
 # ---------------------------------------------------------------------------------------------------------------------
+# C16: no arm of the scalar evaluator ends in panic!/todo!/unreachable! for an expression the binder can produce
+# ---------------------------------------------------------------------------------------------------------------------
+EVAL_ARMS_REACHABLE = ["ColumnBinding", "Literal", "BinaryOp", "UnaryOp", "Function", "Aggregate", "Case", "InList", "Between", "IsNull", "Star"]
+# Subquery / Exists / InSubquery are rejected by the binder (checked natively while building: DESIGN.md 9.2), so their
+# todo!() arms are not reachable input of the evaluator and are not reported.
+
+
+@obligation(id="C16.eval_arms_do_not_panic", funcs="ExpressionEvaluator::evaluate (every arm the binder can produce)",
+            bounds="every path of each arm with loops unrolled once; callees uninterpreted (their own panics are the "
+                   "business of the Kani harnesses on eval_binary_op / DataType arithmetic)",
+            native="c16_having_does_not_kill_worker")
+def c16_eval_arms(env, ob):
+    bad_arms, inc, total = [], [], 0
+    ctxs = []
+    for v in EVAL_ARMS_REACHABLE:
+        try:
+            ctx, f, be, res = eval_arm(env, ob, v)
+        except Unsupported as e:
+            inc.append(f"{v}: {str(e)[:80]}")
+            continue
+        div = [p for p, rv in res if p.panics and p.panics.startswith("diverging call") and not p.cut]
+        total += len(res)
+        if div:
+            chk = env.check(ctx, [disj([conj(p.pc) for p in div])])
+            if chk[0]["verdict"] == "sat":
+                bad_arms.append(v)
+            elif chk[0]["verdict"] != "unsat":
+                inc.append(f"{v}: {chk[0]['verdict']}")
+    kw = dict(paths=total, queries=len(EVAL_ARMS_REACHABLE))
+    if bad_arms:
+        return result(ob, "violated", failed=[f"evaluator_arm_panics[{v}]" for v in bad_arms],
+                      cex={"what": "evaluate() reaches panic!/todo!/unreachable! for BoundExpression::" + ",".join(bad_arms)}, **kw)
+    if inc:
+        return result(ob, "inconclusive", reason="; ".join(inc)[:300], **kw)
+    return result(ob, "discharged", **kw)
+
+
+# ---------------------------------------------------------------------------------------------------------------------
 # C05: operator precedence of the Pratt parser (constants and the loop condition are extracted from the real MIR)
 # ---------------------------------------------------------------------------------------------------------------------
 PARSER = "sql/parser/mod.rs"
